@@ -209,7 +209,7 @@ fn byte_case(stage: u8, code: u32, seed: u64) -> Option<String> {
 pub fn search(contract: &str, seed: u64, as_twin: bool) -> i32 {
     if bin().is_none() { eprintln!("COPIA_BIN not set"); if as_twin { println!("CASES 0"); } return 0; }
     let mut cases = 0u64;
-    let stages: Vec<(u8, u32)> = if contract.contains("run_delta") { vec![(0, NSIG), (6, NEDGE)] } else if contract.contains("run_patch") { vec![(1, NDELTA)] } else { vec![(2, 1), (6, NEDGE), (5, NSYNC), (0, NSIG), (1, NDELTA)] };
+    let stages: Vec<(u8, u32)> = if contract.contains("sync_files") { vec![(5, NSYNC)] } else if contract.contains("run_delta") { vec![(0, NSIG), (6, NEDGE)] } else if contract.contains("run_patch") { vec![(1, NDELTA)] } else { vec![(2, 1), (6, NEDGE), (5, NSYNC), (0, NSIG), (1, NDELTA)] };
     for (stage, n) in stages {
         for code in 0..n {
             cases += 1;
@@ -222,7 +222,7 @@ pub fn search(contract: &str, seed: u64, as_twin: bool) -> i32 {
         }
     }
     // byte-level length corruption: every 5th offset of the first 400 (rotating with the seed), all three values
-    if !contract.contains("run_delta") && !contract.contains("run_patch") || contract == "cli" {
+    if !contract.contains("run_delta") && !contract.contains("run_patch") && !contract.contains("sync_files") || contract == "cli" {
         for stage in [3u8, 4u8] { let mut off = (seed % 5) as u32; while off < 400 { for vi in 0..3u32 {
             cases += 1;
             if let Some(what) = byte_case(stage, off * 3 + vi, seed) {
